@@ -498,7 +498,7 @@ fn check_umad_with_closes(
     obs: &mut Obs,
 ) -> Vec<Violation> {
     let mut v = Vec::new();
-    let parent: Vec<u32> = (0..len).map(|i| if close_mask >> i & 1 == 1 { CLOSE } else { i as u32 }).collect();
+    let parent: Vec<u32> = (0..len).map(|i| if i < 63 && close_mask >> i & 1 == 1 { CLOSE } else { i as u32 }).collect();
     let mut olds: Vec<u32> = Vec::new();
     let mut news: Vec<u32> = Vec::new();
     for g in child {
@@ -612,6 +612,14 @@ impl Check for C11 {
         let len = match g.below(8) {
             0 => 0,
             1 => 1,
+            // word / block / integer-width boundaries (rare: the cost grows with the length)
+            2 if g.chance(1, 60) => {
+                if g.chance(1, 6) {
+                    *g.pick(&[65_535usize, 65_536, 65_537, 70_000])
+                } else {
+                    *g.pick(&[31usize, 32, 33, 63, 64, 65, 127, 128, 129, 255, 256, 257, 1023, 1024, 1025, 4096])
+                }
+            }
             _ => g.urange(0, 12),
         };
         let rng = RngSpec::swarm(g);
